@@ -117,8 +117,54 @@ theorem store_root_depends_only_on_map (hok : HashOK H) (laws : StoreLaws S) (st
     rep_rootHash H S hok (store_history_rep H S hok laws st0' ops₂).2,
     tree_depends_only_on_map bit32 width keyExt_bytes _ _ h]
 
-/-! ### non-vacuity: a concrete history on a concrete lawful store -/
+/-! ### the order of effects the refinement relies on (extracted from the Rust text by `tools/gen/sparse.py`)
 
-example : AllOk H funStore (SMT.new (fun _ => none)) [] := trivial
+`Model/SparseStore.lean` transcribes `update_with_path_set` / `delete_with_path_set` in the order of effects
+of the Rust code and the proofs `SmtRefine.update_rep` / `SmtRefine.deletePath_rep` depend on that order. The
+translator extracts the sequence of storage calls, loops, early return and root assignment from
+`sparse/merkle_tree.rs` (failing when a storage call has an unknown shape); the theorems below pin the
+extracted sequences to the transcribed ones, so an edit of the order in the Rust code breaks a proof
+obligation here (and not only the correspondence stream). -/
+
+open FuelVerif.Gen.Sparse in
+/-- `update_with_path_set`: early return on an identical leaf; "merge leaves" (join with the actual leaf, write),
+"merge placeholders" (loop: join with a placeholder, write) or else removal of the overwritten leaf; the
+merge-side-nodes loop WRITES the new parent and then REMOVES the old one; the root is assigned last.
+(`SparseStore.updateWithPathSet`, `SmtRefine.updateR`, `SmtRefine.mergeStore true`) -/
+theorem update_effect_order :
+    updateEffects = [.returnIfSame, .ifKeysDiffer, .joinActual, .insertCurrent, .loopPlaceholders,
+      .joinPlaceholder, .insertCurrent, .removeActual, .loopMerge, .insertCurrent, .removeOldParent,
+      .setRoot] := by decide
+
+open FuelVerif.Gen.Sparse in
+/-- `delete_with_path_set`: ALL old path nodes are removed first; then the first side node is read; then the
+orphaned leaf is re-attached (find side, find parent, write); the merge-side-nodes loop only writes; the root
+is assigned last. (`SparseStore.deleteWithPathSet`, `SmtRefine.deleteR`, `SmtRefine.mergeStore false`) -/
+theorem delete_effect_order :
+    deleteEffects = [.loopPathNodes, .removePathNode, .getFirstSide, .ifFirstSideLeaf, .findSide, .findParent,
+      .insertCurrent, .loopMerge, .insertCurrent, .setRoot] := by decide
+
+open FuelVerif.Gen.Sparse in
+/-- the two facts `deletePath_rep` needs, stated on the extracted sequence alone: nothing but the removal loop
+happens before the first side node is read, and nothing is removed afterwards (new path nodes may coincide with
+old ones — deleting the absent all-zero key re-creates the same path — so a later removal would lose them) -/
+theorem delete_removes_before_writes :
+    deleteEffects.takeWhile (fun e => e != .getFirstSide) = [.loopPathNodes, .removePathNode] ∧
+    (deleteEffects.dropWhile (fun e => e != .getFirstSide)).all
+      (fun e => e != .removePathNode && e != .removeActual && e != .removeOldParent) = true := by decide
+
+open FuelVerif.Gen.Sparse in
+/-- the facts `update_rep` needs: the early return comes before any storage effect, and inside the
+merge-side-nodes loop the new parent is written before the old one is removed -/
+theorem update_writes_before_removes :
+    updateEffects.head? = some .returnIfSame ∧
+    updateEffects.dropWhile (fun e => e != .loopMerge) =
+      [.loopMerge, .insertCurrent, .removeOldParent, .setRoot] := by decide
+
+/-! ### non-vacuity -/
+
+/-- a lawful node table exists, and `AllOk` / `storeRun` are meaningful on it; `HashOK` itself is an
+idealisation (total injectivity on the 65-byte tagged inputs) and has no concrete instance -/
+example : StoreLaws funStore ∧ AllOk H funStore (SMT.new (fun _ => none)) [] := ⟨funStore_laws, trivial⟩
 
 end FuelVerif.Smt
